@@ -183,10 +183,30 @@ def gen_broken_name(rng):
   return text + (' = 1' if place == 'key' else '')
 
 
+def gen_reused_name(rng):
+  """A spelling that is fine where a value stands (a reference or macro may carry a dotted scope, a reference a
+  '/'-scoped name) is used there first, then where it is not allowed: as a binding key, a macro definition, a block
+  header or an import path. Returns (well-formed first statement, malformed second statement)."""
+  if rng.random() < 0.7:
+    sc = rng.choice(['a.b', 'pkg.consts', 'x/y.z', 'm.n/o', 'pkg.layers'])
+    leaf = rng.choice(['f', 'RATE', 'Dense', 'mod.fn'])
+    form = rng.choice(['bind', 'macro', 'block'])
+    name = sc + '/' + leaf + ('.x' if form == 'bind' else '')
+    second = {'bind': name + ' = 1', 'macro': name + ' = 0.1', 'block': name + ':\n  x = 1'}[form]
+  else:
+    name = rng.choice(['pkg/mod', 'a/b/c', 'pkg/sub.mod'])
+    second = rng.choice(['import ' + name, 'from ' + name + ' import x', 'import ' + name + ' as y'])
+  first = rng.choice(['ok.y = @' + name, 'ok.y = %' + name, 'ok.y = [1, @' + name + '()]', 'ok.y = {1: %' + name + '}'])
+  return first, second
+
+
 def gen_cases(rng, tier, boost=1):
   n = (700 if tier == 'quick' else 30000) * boost
   for k in range(n):
-    if k % 6 == 5:
+    if k % 6 == 5 and rng.random() < 0.2:
+      first, second = gen_reused_name(rng)
+      yield {'dom': 'parse', 'kind': 'bad', 'texts': [first + '\n' + second + '\n'], 'nprefix': 1}
+    elif k % 6 == 5:
       r3 = rng.random()
       bad = rng.choice(BAD_SELECTORS) if r3 < 0.4 else (gen_bad_selector(rng) if r3 < 0.75 else gen_broken_name(rng))
       prefix = 'ok.y = 2\n' if rng.random() < 0.5 else ''
